@@ -243,6 +243,9 @@ class Interface(ModelElement):
         :param kwargs:
         :return:
         """
+        if kwargs.get('name') is not None:
+            # as set_property('name') / rename(): the new name must be free in the element's scope
+            self._check_name_unique(kwargs['name'])
         if_sliver = InterfaceSliver()
         if_sliver.set_properties(**kwargs)
         # write into the graph
